@@ -832,7 +832,12 @@ func (env *SpecEnv) index(e *Expr) (SpecVal, error) {
 		if i.Lit != nil {
 			kt = env.litTerm(i.Lit, ks)
 		}
+		// Go semantics: a missing key (or a nil map) reads as the zero value
 		val := Select(Select(vc.mapHeap(env.cur, "val", ks, vs), Rid(x.T)), kt)
+		if z, err := vc.zeroValue(u.Elem()); err == nil {
+			present := And(Neq(Rid(x.T), IntLit(0)), Select(Select(vc.mapHeap(env.cur, "dom", ks, vs), Rid(x.T)), kt))
+			val = Ite(present, val, z)
+		}
 		return SpecVal{T: val, Ty: u.Elem()}, nil
 	}
 	return SpecVal{}, fmt.Errorf("cannot index %s", x.Ty)
